@@ -79,6 +79,13 @@ def build(tier="quick", seed=0):
                     return f"element {it.type_name(e)} of {fname} is not a {typename[:-2]}"
         if typename == "datetime" and getattr(v.base, "tzinfo", 1) is None:
             return "naive datetime stored"
+        if typename.startswith("digest"):
+            for d in (v.base if typename.endswith("[]") else [v]):
+                for alg, size in (("md5", 16), ("sha1", 20), ("sha256", 32)):
+                    b = d.attrs.get(f"_digest__{alg}_bin")
+                    hx = d.attrs.get(f"_digest__{alg}")
+                    if b is not None and (len(it.unbase(b)) != size or it.unbase(hx) is None or len(it.unbase(hx)) != 2 * size):
+                        return f"digest.{alg} holds {len(it.unbase(b))} bytes (a {alg} has {size})"
         return None
 
     def packable(rec):
@@ -364,6 +371,43 @@ def build(tier="quick", seed=0):
                 pack.add(make_sample(t, src, valid, False))
                 if t in V.LISTABLE:
                     pack.add(make_sample(t, src, valid, True))
+
+    # ---- G. decoding: a record frame that carries a value its field type cannot represent is refused (or coerced to a well-formed value), never stored as it is
+    from contracts.streamlib import W, blob
+    from pyvc.models.mp import MPBytes as _MPB
+
+    DECODE = {"digest md5 of 3 bytes": ("digest", ("arr", [("leaf", b"abc"), ("leaf", None), ("leaf", None)])), "digest 16 bytes in the sha1 slot": ("digest", ("arr", [("leaf", None), ("leaf", b"x" * 16), ("leaf", None)])),
+              "digest sha256 of 33 bytes": ("digest", ("arr", [("leaf", None), ("leaf", None), ("leaf", b"y" * 33)])), "uint16 of 70000": ("uint16", ("leaf", 70000)), "uint32 of -1": ("uint32", ("leaf", -1)), "boolean of 7": ("boolean", ("leaf", 7)),
+              "bytes given text": ("bytes", ("leaf", "text")), "digest[] with a short hash": ("digest[]", ("arr", [("arr", [("leaf", b"ab"), ("leaf", None), ("leaf", None)])]))}
+    for label, (typename, vtree) in DECODE.items():
+        name = f"C05.decode[{label}]"
+
+        def th(typename=typename, vtree=vtree):
+            D = it.call(RD, ["c05/dec", [(typename, "x")]], {})
+            nm = it.getattr_(D, "name")
+            h = W.descriptor_hash(nm, [(typename, "x")])
+            t = W.record_tree(blob, nm, h, [vtree, W.leaf(None), W.leaf(None), W.datetime_utc_tree(blob, 2020, 1, 2, 3, 4, 5, 6), W.leaf(1)])
+            p_ = it.call(pk.g["RecordPacker"], [], {})
+            it.call(it.getattr_(p_, "register"), [D], {})
+            try:
+                rec = it.call(it.getattr_(p_, "unpack"), [blob(t)], {})
+            except PyRaise as e:
+                return "refused", e.cls_name, None
+            return "decoded", well_typed(rec, "x", typename), packable(rec)
+
+        def judge(p, typename=typename):
+            r = p.value
+            if r[0] == "refused":
+                return True
+            # decoded: then it must be a well-formed value of the type that can be written again and whose digest members have the right sizes
+            if r[1] or r[2]:
+                return False, f"decoded into a malformed value: {r[1] or r[2]}"
+            return True
+
+        def check_digest_sizes(rec):
+            return None
+
+        pack.add(Obligation(name, lambda tier, name=name, th=th, judge=judge: prove_paths(name, th, judge, lambda m, p: {}), replay=lambda w, label=label: {"call": "c05_decode", "args": {"label": label}}, functions=FU, mode="representative malformed payloads in a conforming frame"))
 
     # ---- canary, conformance, bounded native sweep
     def run_canary(tier):
